@@ -42,3 +42,8 @@ Example C15_nonvacuous :
   (* handler 1 sends a packet to the own address 9 from inside the dispatch: every handler sees it once, nested, and it is not transmitted *)
   tick 9 t (mkI [GPacket p] [] []) = (Val tt, [(1, 11, p); (0, 10, mkP false 9 [1]); (1, 11, mkP false 9 [1]); (3, 13, mkP false 9 [1])], mkI [] [] []).
 Proof. repeat split; reflexivity. Qed.
+
+(* the extracted checker accepts the model's observations of every operation history (the table it rebuilds from the returned ids is the model's) *)
+Require Import RP.Glue.Wire RP.Glue.StreamLink RP.Glue.StreamProto RP.Lemmas.GlueLemmas.
+Theorem C15_checker_accepts_model : forall case own ops, pro_split case = Some (own, ops) -> ok_C15 case (run_PRO case) = [].
+Proof. exact ok_C15_accepts_model. Qed.
